@@ -102,7 +102,8 @@ _INT = re.compile(r'-?\d+')
 def run_case_files(name, header, define, items, per_shard=400, timeout=900, evaluator='failing cases'):
     """Write shards `Definition cases := [items]` and evaluate `evaluator` with vm_compute in each.
     Returns (list of failing global indices, list of shard errors)."""
-    d = os.path.join(BUILD, 'cases', name)
+    # one directory per (property being checked, family): checks of different properties may run at the same time
+    d = os.path.join(BUILD, 'cases', os.environ.get('VERIF_PID', 'x') + '-' + name)
     os.makedirs(d, exist_ok=True)
     for f in os.listdir(d):
         os.unlink(os.path.join(d, f))
@@ -187,7 +188,8 @@ def matches_known(witness, known):
 def run_shards(name, shards, define, evaluator, timeout=900):
     """shards: list of (header_text, [item strings]).  Each shard is one coqc run ending in `Eval vm_compute in answer`.
     Returns (list of raw answer strings per shard (None on error), list of (shard, error text))."""
-    d = os.path.join(BUILD, 'cases', name)
+    # one directory per (property being checked, family): checks of different properties may run at the same time
+    d = os.path.join(BUILD, 'cases', os.environ.get('VERIF_PID', 'x') + '-' + name)
     os.makedirs(d, exist_ok=True)
     for f in os.listdir(d):
         try:
